@@ -157,6 +157,18 @@ fn mirror(sess: &mut Session, toks: &[&str]) -> Vec<String> {
             let parts: Vec<String> = d.list_range(parse_exid(toks[2]), b..e).map(|it| { let v: Value<'static> = it.value.clone().into(); format!("i{}={}", it.index, show_val(&v, &it.id())) }).collect();
             vec![format!("ok {}", if parts.is_empty() { "-".to_string() } else { parts.join("|") })]
         }
+        // capi.mrange r obj <begin hex|-> <end hex|-> <heads|->: map_range / map_range_at with open or closed bounds
+        "capi.mrange" => {
+            use std::ops::Bound;
+            let d = reps.get(toks[1]).unwrap();
+            let obj = parse_exid(toks[2]);
+            let b = if toks[3] == "-" { Bound::Unbounded } else { Bound::Included(String::from_utf8(unhx(toks[3])).unwrap()) };
+            let e = if toks[4] == "-" { Bound::Unbounded } else { Bound::Excluded(String::from_utf8(unhx(toks[4])).unwrap()) };
+            let show = |it: automerge::iter::MapRangeItem<'_>| { let v: Value<'static> = it.value.clone().into(); format!("m{}={}", hex::encode(it.key.as_bytes()), show_val(&v, &it.id())) };
+            let parts: Vec<String> = if toks[5] == "-" { d.map_range(&obj, (b, e)).map(show).collect() }
+                else { let hs: Vec<ChangeHash> = toks[5].split(',').map(|h| ChangeHash::try_from(unhx(h).as_slice()).unwrap()).collect(); d.map_range_at(&obj, (b, e), &hs).map(show).collect() };
+            vec![format!("ok {}", if parts.is_empty() { "-".to_string() } else { parts.join("|") })]
+        }
         "capi.commit" => {
             let d = reps.get_mut(toks[1]).unwrap();
             match d.commit_with(automerge::transaction::CommitOptions::default().with_message("m").with_time(0)) {
@@ -576,6 +588,21 @@ fn reads(r: &mut Rng, sess: &mut Session, out: &mut Out, who: &str, known_objs: 
         };
         // 1 in 12: a prop of the wrong kind for the object (invalid call)
         let prop = if r.chance(1, 12) { if prop.starts_with('m') { "i0".to_string() } else { "m61".to_string() } } else { prop };
+        // map ranges: every combination of open / closed bounds, at the current heads or at a past change
+        if matches!(ty, ObjType::Map | ObjType::Table) && r.chance(1, 4) {
+            let mut ks: Vec<String> = d.keys(parse_exid(&obj)).collect();
+            ks.push("m".into()); ks.push("".into()); ks.sort();
+            let (i, j) = (r.below(ks.len() as u64) as usize, r.below(ks.len() as u64) as usize);
+            let (lo, hi) = (i.min(j), i.max(j));
+            let b = if r.chance(1, 2) { "-".to_string() } else if ks[lo].is_empty() { "-".to_string() } else { hex::encode(ks[lo].as_bytes()) };
+            let e = if r.chance(1, 2) { "-".to_string() } else if ks[hi].is_empty() { "-".to_string() } else { hex::encode(ks[hi].as_bytes()) };
+            let mut dd = d.clone();
+            let hist: Vec<String> = if dd.pending_ops() == 0 { dd.get_changes(&[]).iter().map(|c| hex::encode(c.hash().0)).collect() } else { vec![] };
+            let hs = if hist.is_empty() || r.chance(1, 2) { "-".to_string() } else { hist[r.below(hist.len() as u64) as usize].clone() };
+            out.count(&format!("read_capi.mrange_{}{}{}", if b == "-" { "o" } else { "c" }, if e == "-" { "o" } else { "c" }, if hs == "-" { "" } else { "_at" }));
+            exec_line(sess, &format!("capi.mrange {} {} {} {} {}", who, obj, b, e, hs), out);
+            continue;
+        }
         let line = match r.below(11) {
             10 => format!("capi.cursor {} {} {}", who, obj, if r.chance(1, 8) { len + 1 } else { r.below(len.max(1)) }),
             0 | 1 => format!("capi.get {} {} {}", who, obj, prop),
